@@ -150,6 +150,9 @@ def run(ctx):
                 'children.')
     plans = [('k', pc.K_ATOMS, 3), ('default', pc.D_ATOMS, 3)] if quick else \
             [('k', pc.K_ATOMS, 4), ('default', pc.D_ATOMS, 4), ('knounk', pc.SIGMA1 + pc.SIGMA2 + ['\\m', '\\o', '\\z', '\\u'], 4)]
+    WS_ATOMS = ['a', ' ', '\n', '\r', '\t', '%', '\\textbf', '{', '}', '~', '\\\\']
+    plans.append(('default', WS_ATOMS, 4 if quick else 6))
+    plans.append(('k', WS_ATOMS[:6] + ['\\m', '{', '}', '\\s', '*'], 4 if quick else 5))
     for cname, atoms, K in plans:
         jobs = pc.export_jobs(atoms, cname, K, ['strict', 'tolerant'], ['StrictCover', 'TolerantCover', 'NoNonterm'],
                               payload=dict(sample_every=97 if quick else 997), timeout=6000)
